@@ -190,6 +190,7 @@ def run_case(desc, ctx):
         ad, data = case["adapter"], case["data"]
         fit = lambda: ad.fit(data, sdims, case["weights"])  # noqa: E731
         get_model = lambda: ad.model  # noqa: E731
+    rank_reducing = bool(desc["nan_features"] or desc.get("many_items"))  # (both replace features: the generated n_modes may exceed the new rank)
     if desc.get("many_items"):
         # a list of more than ten data objects with different statistics (order of the per-item transformers matters)
         ctx.event("many_items")
@@ -211,7 +212,7 @@ def run_case(desc, ctx):
     has_attrs = any(desc["attrs"][k] for k in desc["attrs"])
     ctx.nontrivial(has_attrs or desc["lays"][0]["container"] != "da" or fam == "cross" or M.is_rotator(cls))
     r = call(ctx, "fit_raises", fit, disc=disc, refuse=(RuntimeError, ValueError),
-             refuse_if=lambda e: "did not converge" in str(e) or (desc["nan_features"] and ("less than or equal to the rank" in str(e) or "n_components must be less" in str(e))))
+             refuse_if=lambda e: "did not converge" in str(e) or (rank_reducing and ("less than or equal to the rank" in str(e) or "n_components must be less" in str(e))))
     if isinstance(r, Failed):
         return
     model = get_model()
